@@ -236,6 +236,27 @@ VARIANTS = {
     c = beta*y - 0.5*diff(c, -1) !! c = beta*y;
     k = 0.9*k{-1} + y - c;
 """,
+    "every block written in two parts": r"""
+!transition-variables
+    "Output" y
+!parameters
+    alpha
+!transition-equations
+    "Output equation" y = alpha*y[-1] + (1-alpha)*k[-1] + z;
+!transition-variables
+    "Consumption" c, "Capital" k
+!exogenous-variables
+    z
+!parameters
+    beta
+!log-variables
+    y
+!transition-equations
+    c = beta*y - 0.5*diff(c) !! c = beta*y;
+    k = 0.9*k[-1] + y - c;
+!log-variables
+    k
+""",
     "substitutions and for loop": r"""
 !transition-variables
     "Output" y, "Consumption" c
@@ -314,4 +335,69 @@ def log_status_declarations_native(B):
         got = {q.human for q in m._invariant.quantities if q.logly and q.human in ALL}
         if got != want:
             B.fail(f"log status: {label}", {"spelling": label, "got": sorted(got), "want": sorted(want)})
+            return
+
+
+# ------------------------------------------------------------------------------ blocks written in several parts; <...> expressions
+from irispie.parsers import models as PM
+from irispie.parsers import preparser as PP
+
+
+@contract("C04", targets=["irispie.parsers.models:_Visitor._add"], instances=[(0, 2), (1, 2), (3, 1), (2, 0)])
+def repeated_blocks_accumulate(K, n_old, n_new):
+    """A block keyword may appear several times in a source: what the visitor collects for a block is everything
+    collected so far followed by the new items, and no other block is touched."""
+    old = [("old", i) for i in range(n_old)]
+    new = [("new", i) for i in range(n_new)]
+    other = [("other", 0)]
+    content = {"b": list(old), "c": other} if n_old else {"c": other}
+    v = K.obj(PM._Visitor, content=content)
+    K.call(PM._Visitor._add, v, "b", list(new))
+    got = K.attr(v, "content")
+    want_b = old + new
+    K.ensure("block content is old + new, in order", (list(K.items(K.index(got, "b"))) == want_b) if want_b else ("b" not in [k for k in K.items(got)]))
+    K.ensure("other blocks untouched", list(K.items(K.index(got, "c"))) == other)
+
+
+@contract("C04", targets=["irispie.parsers.preparser:_stringify"], instances=[(v,) for v in (1 / 3, 0.1 + 0.2, 0.8123456789, 1e-07, 12345.678901234567, 1e22, 2.5, -0.75, 3, -12, True)], cross=0)
+def contextual_values_are_pasted_without_loss(K, value):
+    """The value of a <...> expression is pasted into the source as text; reading that text back as a Python
+    literal must give the very same number (no digits lost), so the equation means what was written."""
+    text = K.call(PP._stringify, value)
+    K.ensure("text is a string", isinstance(text, str))
+    back = ast.literal_eval(text) if isinstance(text, str) else None
+    K.ensure("the pasted text denotes exactly the value", back == value and type(back) is type(value))
+    both = K.call(PP._stringify, [value, "abc", (value,)])
+    K.ensure("iterables are pasted as comma separated items", both == f"{text},abc,{text}")
+
+
+CTX_SOURCE = r"""
+!transition-variables
+    x, y
+!parameters
+    a
+!transition-equations
+    x = <c1>*x[-1] + <1/3>*y + <vals>*a;
+    y = <c1**2 + 1e-9>*y[-1] + <[k/7 for k in (1,)]>*x;
+"""
+
+
+@bounded("C04", bound="one model with four <...> expressions (name lookup, arithmetic, a list) whose values need 10-17 significant digits, on random data")
+def contextual_expressions_native(B):
+    """<...> expressions are replaced by their values: the equation then evaluates to rhs - lhs with those values."""
+    ctx = {"c1": 0.8123456789, "vals": 0.1 + 0.2}
+    m = ir.Simultaneous.from_string(CTX_SOURCE, context=dict(ctx))
+    n2q = m.create_name_to_qid()
+    rng = np.random.default_rng(B.seed if hasattr(B, "seed") else 0)
+    data = rng.uniform(0.5, 2.0, size=(max(n2q.values()) + 1, 8))
+    g = MK._prepare_globals(None)
+    t = 4
+    v = lambda n, s=0: data[n2q[n], t + s]      # noqa: E731
+    want = [ctx["c1"] * v("x", -1) + (1 / 3) * v("y") + ctx["vals"] * v("a") - v("x"),
+            (ctx["c1"] ** 2 + 1e-9) * v("y", -1) + (1 / 7) * v("x") - v("y")]
+    for e, w in zip(m._invariant.dynamic_equations, want):
+        B.case()
+        got = float(eval(e.xtring, dict(g), {"x": data, "t": t}))
+        if not (abs(got - w) <= 1e-13 * max(1.0, abs(w))):
+            B.fail("equation with <...> expressions does not evaluate to rhs - lhs as written", {"equation": e.human, "got": got, "want": float(w)})
             return
